@@ -14,6 +14,7 @@ import Sparrow.Model.Visibility
 import Sparrow.Model.Nusselt
 import Sparrow.Model.Pipeline
 import Sparrow.Generated.CheckParse
+import Sparrow.Model.ShapeLife
 open Sparrow Driver
 
 def flat3 (P D S : Nat) (T : Tab3 Float) : Array Float := Id.run do
@@ -274,6 +275,42 @@ def cmdLife : P String := do
       | _ => throw s!"op:{k}"
     s := step s op
     out := out.push (stStr s)
+  return "ok " ++ " | ".intercalate out.toList
+
+/-- `shapelife W nv P nIds ids… nOps ops…` → per step the abstract saved dictionary (`printCfg`)
+    and whether the restore is accepted, or `fail` (the history ends there).
+    ops: `S m w… nIn nOut fn ftag | A fn ftag | B nVisible | I | X c(num den) dt(num den) dur(num den) order recalc | R` -/
+def cmdShapeLife : P String := do
+  let w ← nat; let nv ← nat; let p ← nat
+  let nIds ← nat
+  let ids ← many nIds int
+  let n ← nat
+  let mut s := Sparrow.Shape.fresh w nv p ids.toList
+  let show1 := fun (t : Sparrow.Shape.St) =>
+    Sparrow.Generated.printCfg (Sparrow.Shape.toCfg t) ++ " # " ++ (if Sparrow.Shape.accepted t then "1" else "0")
+  let mut out := #[show1 s]
+  let mut dead := false
+  for _ in [0:n] do
+    let k ← tok
+    let op ← match k with
+      | "B" => do let nvis ← nat; pure (Sparrow.Shape.Op.bake nvis)
+      | "I" => pure Sparrow.Shape.Op.init
+      | "X" => do
+          let c ← Sparrow.Generated.pRat; let dt ← Sparrow.Generated.pRat; let dur ← Sparrow.Generated.pRat
+          let k ← int; let r ← nat
+          pure (Sparrow.Shape.Op.exchange c dt dur k (r != 0))
+      | "S" => do
+          let m ← nat
+          let ws ← nats m
+          let nIn ← nat; let nOut ← nat; let fn ← nat; let ft ← nat
+          pure (Sparrow.Shape.Op.setBrdf ws.toList nIn nOut ⟨fn, ft⟩)
+      | "A" => do let fn ← nat; let ft ← nat; pure (Sparrow.Shape.Op.setAtt ⟨fn, ft⟩)
+      | "R" => pure Sparrow.Shape.Op.saveRestore
+      | _ => throw s!"op:{k}"
+    if !dead then
+      match Sparrow.Shape.step s op with
+      | some t => s := t; out := out.push (show1 t)
+      | none => dead := true; out := out.push "fail"
   return "ok " ++ " | ".intercalate out.toList
 
 instance : NatCast Float := ⟨Float.ofNat⟩
@@ -596,6 +633,7 @@ def dispatch (cmd : String) : P String :=
   | "direct" => cmdDirect
   | "checkcfg" => cmdCheckCfg
   | "life" => cmdLife
+  | "shapelife" => cmdShapeLife
   | "patches" => cmdPatches
   | "brdfscat" => cmdBrdfScat
   | "frame" => cmdFrame
